@@ -228,7 +228,7 @@ Prods(sym, rich) ==
     [] sym = "OptSpText" -> {<<>>, <<W, NT("TextExpr")>>}
     [] sym = "MoreNames" -> {<<>>, <<T(" "), NT("NameExpr")>>}
     [] sym = "OptWords0" -> {<<>>, <<T(" "), T("opt1")>>, <<T(" "), T("opt1"), T(" "), T("k=v")>>}
-    [] sym = "OptWords1" -> {<<w, T("opt1")>>, <<T(" "), T("opt1"), T(" "), T("des='x'")>>}
+    [] sym = "OptWords1" -> {<<>>, <<w, T("opt1")>>, <<T(" "), T("opt1"), T(" "), T("des='x'")>>}
     [] sym = "ElsePart" -> {<<>>} \cup (IF rich THEN {<<w, T("%else"), W, NT("Branch")>>} ELSE {})
     [] sym = "Branch" ->
          {<<NT("OpenStmt")>>, <<T("%let"), W, NT("NameExpr"), w, D("=", "ASSIGN"), w, NT("OptText"), D(";", "SEMI")>>,
